@@ -8,7 +8,7 @@ from . import smt
 from .state import State
 from .values import (
     Unsupported, Sym, Ref, TupleV, FuncV, LambdaV, BuiltinV, ClassV, ModuleV, SuperV, Raised, ExcSym,
-    PyList, SeqV, PyDict, Obj, ArrState, DataView, Idx, StackState, Slice, is_concrete, num_term, isint_of,
+    PyList, SeqV, PyDict, Obj, ArrState, DataView, MaskView, Idx, StackState, Slice, is_concrete, num_term, isint_of,
     is_num, zand, zor, znot,
 )
 from .exprs import ExprMixin
@@ -601,6 +601,8 @@ class Engine(ExprMixin, ModelMixin, BuiltinMixin, MAMixin):
                 yield s0, ("normal", None)
                 continue
             pre = s0.fork()
+            s0.note_k(z3.IntVal(0))
+            s0.note_k(z3.IntVal(1))
             # --- peeled first iteration
             for s1, out in body(s0, seq.get(z3.IntVal(0)), z3.IntVal(0)):
                 if out[0] not in ("normal", "continue"):
@@ -614,6 +616,8 @@ class Engine(ExprMixin, ModelMixin, BuiltinMixin, MAMixin):
                 j = smt.fresh("j", z3.IntSort())
                 sj = s1.fork()
                 sj.assume(z3.And(j >= 1, j < m))
+                sj.note_k(j)
+                sj.note_k(j + 1)
                 lc.abstract(self, pre, sj, j, seq)
                 if self.feasible(sj):
                     sj.trail.append(label + ":iter j")
@@ -626,6 +630,8 @@ class Engine(ExprMixin, ModelMixin, BuiltinMixin, MAMixin):
                             yield s2, out2
                 # exit with Inv(m)
                 se = s1.fork()
+                se.note_k(m)
+                se.note_k(m - 1)
                 lc.abstract(self, pre, se, m, seq)
                 se.trail.append(label + ":exit")
                 yield se, ("normal", None)
